@@ -4,27 +4,29 @@ import json, os, itertools
 here = os.path.dirname(os.path.abspath(__file__))
 P = {}
 
-def job(harness, conc=False, reach=None, **p):
+def job(harness, conc=False, reach=None, soft=None, **p):
     j = {"H": harness, "p": p}
     if conc: j["conc"] = True
     if reach: j["required_reach"] = reach
+    if soft: j["soft_reach"] = soft
     return j
 
 # ---------------------------------------------------------------- C08
 def c08_parse(n):
     r = ["malformed"] if n < 2 else ["malformed", "wellformed"] if n <= 9 else ["malformed", "overlong"]
     return job("H_C08_parse", reach=r, n=n)
-c08_tail = [job("H_C08_client", reach=["future-deadline", "expired-deadline"]), job("H_C08_nodeadline", reach=["done"])]
+def c08e(kind, dl, md): return job("H_C08_e2e", conc=True, reach=["checked"], kind=kind, dl=dl, md=md)
+c08_tail = [job("H_C08_client", reach=["future-deadline", "expired-deadline"]), job("H_C08_nodeadline", reach=["done"]), c08e(0, 1, 0), c08e(1, 1, 0), c08e(0, 0, 0), c08e(1, 0, 0)]
 P["C08"] = {
  "title": "caller deadlines reach the handler; timeout header values mean what they say",
- "bounds": "parser vs grammar: every byte string of each length 0..10 (quick) / 0..13 (thorough); header lookup: 2 entries (thorough 3), key from {grpc-timeout in any letter case, 3 other keys}, every 2-byte (thorough 3-byte) value; client encoding: every deadline from 18 min in the past to 10^4 h ahead, arbitrary non-decreasing clock instants",
+ "bounds": "parser vs grammar: every byte string of each length 0..10 (quick) / 0..13 (thorough); header lookup: 2 entries (thorough 3), key from {grpc-timeout in any letter case, 3 other keys}, every 2-byte (thorough 3-byte) value; client encoding: every deadline from 18 min in the past to 10^4 h ahead, arbitrary non-decreasing clock instants; end to end through the exported API (H_C08_e2e): one unary / one streaming call on a real client+server pair with such a deadline (or none), every schedule, every non-decreasing clock",
  "assumptions": ["time.Now() returns arbitrary non-decreasing instants in [2^40, 2^60] ns; vfFreezeClock pins the instant observed inside one call",
    "time.Until/Time.Add/Sub modelled as 64-bit subtraction/addition (no monotonic-clock handling)",
    "strconv.ParseInt executed from its own SSA; fmt.Sprintf(\"%dm\") yields a digit string introduced by constraint (canonical form)"],
  "quick": [c08_parse(n) for n in range(0, 11)] + [job("H_C08_lookup", reach=["has-deadline", "no-deadline"], entries=2, vlen=2),
             job("H_C08_lookup", reach=["has-deadline", "no-deadline"], entries=1, vlen=3), job("H_selftest_lib", reach=["checked"])] + c08_tail,
  "thorough": [c08_parse(n) for n in range(0, 14)] + [job("H_C08_lookup", reach=["has-deadline", "no-deadline"], entries=2, vlen=3),
-            job("H_C08_lookup", reach=["has-deadline", "no-deadline"], entries=3, vlen=2)] + c08_tail,
+            job("H_C08_lookup", reach=["has-deadline", "no-deadline"], entries=3, vlen=2)] + c08_tail + [c08e(0, 1, 1), c08e(1, 1, 1)],
 }
 
 # ---------------------------------------------------------------- C09
@@ -92,12 +94,12 @@ P["C03"] = {
 # ---------------------------------------------------------------- C04
 P["C04"] = {
  "title": "request metadata, response headers and trailers arrive intact",
- "bounds": "ToMetadata(ToKeyValue(md)) for K keys (text and -bin, every letter case), 1..V values per key, every value of length 0..vlen over all 256 byte values, all map iteration orders; repeated-MD join; header emission modes (SetHeader+first message, SendHeader, with trailer) end to end are exercised by the C06 scenarios",
+ "bounds": "ToMetadata(ToKeyValue(md)) for K keys (text and -bin, every letter case), 1..V values per key, every value of length 0..vlen over all 256 byte values, all map iteration orders; repeated-MD join; header emission modes (SetHeader+first message, SendHeader, with trailer; handler ok / error) end to end (H_C04_stream_md); request metadata (upper-case key, two values, one -bin value of 2 arbitrary bytes) end to end for one unary and one streaming call (H_C08_e2e, md=1)",
  "assumptions": ["encoding/base64 executed from its own SSA (tables as SMT arrays)", "keys are ASCII letters and '-' (gRPC key alphabet)"],
  "quick": [job("H_C04_roundtrip", reach=["checked"], K=2, V=2, vlen=2), job("H_C04_roundtrip", reach=["checked"], K=1, V=1, vlen=3, allbin=1), job("H_C04_join", reach=["checked"]),
            job("H_C04_request_md", reach=["checked"], deadline=0), job("H_C04_request_md", reach=["checked"], deadline=1)] +
-          [job("H_C04_stream_md", conc=True, reach=["checked"], mode=m, herr=h) for m in (0, 1, 2) for h in (0, 1)],
- "thorough": [job("H_C04_stream_md", conc=True, reach=["checked"], mode=m, herr=h) for m in (0, 1, 2) for h in (0, 1)] + [job("H_C04_request_md", reach=["checked"], deadline=0), job("H_C04_request_md", reach=["checked"], deadline=1), job("H_C04_roundtrip", reach=["checked"], K=2, V=2, vlen=2), job("H_C04_roundtrip", reach=["checked"], K=1, V=1, vlen=3, allbin=1),
+          [job("H_C04_stream_md", conc=True, reach=["checked"], mode=m, herr=h) for m in (0, 1, 2) for h in (0, 1)] + [c08e(0, 0, 1), c08e(1, 0, 1)],
+ "thorough": [c08e(0, 0, 1), c08e(1, 0, 1), c08e(0, 1, 1)] + [job("H_C04_stream_md", conc=True, reach=["checked"], mode=m, herr=h) for m in (0, 1, 2) for h in (0, 1)] + [job("H_C04_request_md", reach=["checked"], deadline=0), job("H_C04_request_md", reach=["checked"], deadline=1), job("H_C04_roundtrip", reach=["checked"], K=2, V=2, vlen=2), job("H_C04_roundtrip", reach=["checked"], K=1, V=1, vlen=3, allbin=1),
               job("H_C04_roundtrip", reach=["checked"], K=3, V=1, vlen=3), job("H_C04_roundtrip", reach=["checked"], K=2, V=2, vlen=3, allbin=1), job("H_C04_join", reach=["checked"])],
 }
 
@@ -106,13 +108,13 @@ P["C05"] = {
  "title": "multiplexed calls are isolated: unique ids, envelopes reach only their owner",
  "bounds": "inductive id step from an arbitrary 64-bit counter (any history shorter than 2^64); dispatch from a registry of two symbolic distinct ids with a symbolic envelope id; n concurrently starting callers (2 quick / 3 thorough), all interleavings; two concurrent calls (stream + unary) with every merge of their response sequences (stream bodies <= 2 / 3)",
  "assumptions": GEN_ASSUME,
- "quick": [job("H_C05_ids", conc=True, reach=["checked"]), job("H_C05_dispatch", reach=["to-a", "to-b", "dropped"]), job("H_C05_concurrent_ids", conc=True, reach=["checked"], n=2),
+ "quick": [job("H_C05_ids", conc=True, reach=["checked"], soft=["counter-inspected"]), job("H_C05_dispatch", reach=["to-a", "to-b", "dropped"]), job("H_C05_concurrent_ids", conc=True, reach=["checked"], n=2),
            job("H_C05_concurrent_ids", conc=True, reach=["checked"], n=3), job("H_C05_merge", conc=True, reach=["checked"], bodies=2),
            job("H_C05_concurrent_ids", conc=True, reach=["checked"], n=1, streams=1), job("H_C05_concurrent_ids", conc=True, reach=["checked"], n=2, streams=1),
            job("H_C02_stream", conc=True, reach=["checked"], cp=0, hp=0, msgs=1), job("H_C01_direct", conc=True, reach=["quiescent"], callers=2),
            job("H_C11_server_abandon", conc=True, reach=["checked"], n=3, k=1),
            dict(job("H_C05_concurrent_ids", conc=True, n=1, streams=1), race=True), dict(job("H_C05_concurrent_ids", conc=True, n=2, streams=0), race=True)],
- "thorough": [job("H_C05_ids", conc=True, reach=["checked"]), job("H_C05_dispatch", reach=["to-a", "to-b", "dropped"]), job("H_C05_concurrent_ids", conc=True, reach=["checked"], n=3),
+ "thorough": [job("H_C05_ids", conc=True, reach=["checked"], soft=["counter-inspected"]), job("H_C05_dispatch", reach=["to-a", "to-b", "dropped"]), job("H_C05_concurrent_ids", conc=True, reach=["checked"], n=3),
            job("H_C05_merge", conc=True, reach=["checked"], bodies=3), job("H_C01_direct", conc=True, reach=["quiescent"], callers=2),
            job("H_C05_concurrent_ids", conc=True, reach=["checked"], n=2, streams=2),
            dict(job("H_C05_concurrent_ids", conc=True, n=2, streams=1), race=True)],
@@ -195,7 +197,7 @@ P["C13"] = {
 }
 
 # ---------------------------------------------------------------- C14
-def c14(**kw): return job("H_C14_release", conc=True, reach=["checked"], **kw)
+def c14(**kw): return job("H_C14_release", conc=True, reach=["checked"], soft=(None if kw.get("outcome") == 7 else ["registries-inspected"]), **kw)
 c14q = [c14(outcome=o, pre=p, tcap=2) for o in (0, 1, 2, 3, 5, 6, 7) for p in (0, 1)] + [c14(outcome=4, pre=0, tcap=1)] + \
        [job("H_C11_server_abandon", conc=True, reach=["checked"], n=3, k=1)]  # a handler that returns with messages unconsumed must still be released
 P["C14"] = {
@@ -270,6 +272,9 @@ P["C20"] = {
 # ---------------------------------------------------------------- C15 (race mode)
 def race(j):
     j = dict(j); j["race"] = True; j["conc"] = True; return j
+def twin(j):
+    j = dict(j); j["twin"] = True; j.pop("required_reach", None); return j
+c15_self = [race(job("H_selftest_sync", reach=["checked"], mode=0)), twin(race(job("H_selftest_sync", mode=1))), twin(race(job("H_selftest_sync", mode=3)))]
 c15q = [race(job("H_C01_direct", callers=2)), race(job("H_C02_stream", cp=2, hp=0, msgs=1)), race(job("H_C02_stream", cp=0, hp=3, msgs=1)),
         race(job("H_C09_fail", kind=1, timing=1, prefix=0, wfail=0)), race(job("H_C09_fail", kind=0, timing=1, prefix=0, wfail=1)),
         race(job("H_C10_end", u=1, s=1, fault=2, hmode=0)), race(job("H_C07_cancel", hmode=1, cprog=0, fault=0, tcap=1)),
@@ -282,9 +287,9 @@ P["C15"] = {
  "title": "API-permitted concurrent use is free of data races",
  "bounds": "happens-before (vector clock) race detection over every explored schedule of the listed scenarios of C01, C02, C06, C07, C09, C10, C11, C17, C18, C19 at their quick bounds; accesses checked: loads, stores and map operations executed by goat's own code",
  "assumptions": GEN_ASSUME + ["a channel or context carries one clock (may assume extra ordering: can hide a race, never invent one)", "state caching is applied without the clocks: a race that needs the happens-before history of a pruned path can be missed",
-   "races inside grpc/protobuf/stdlib and every concurrent use outside the listed scenarios are outside"],
- "quick": c15q,
- "thorough": c15q + [race(job("H_C12_seq", L=2, first=7)), race(job("H_C13_seq", L=1, mode=2, stats=1)), race(job("H_C14_release", outcome=2, pre=1, tcap=2)), race(job("H_C20_stats_e2e", H=2, kind=1, outcome=0))],
+   "the synchronisation models themselves (Mutex, RWMutex, WaitGroup, Once, channels, atomics, context cancellation) are validated on every run by H_selftest_sync: the idioms the Go memory model orders raise nothing, and two twins (writers under RLock, reader without lock) must be reported", "races inside grpc/protobuf/stdlib and every concurrent use outside the listed scenarios are outside"],
+ "quick": c15q + c15_self,
+ "thorough": c15q + c15_self + [race(job("H_C12_seq", L=2, first=7)), race(job("H_C13_seq", L=1, mode=2, stats=1)), race(job("H_C14_release", outcome=2, pre=1, tcap=2)), race(job("H_C20_stats_e2e", H=2, kind=1, outcome=0))],
 }
 
 json.dump(P, open(os.path.join(here, "properties.json"), "w"), indent=1)
